@@ -131,7 +131,11 @@ Script(m) ==
          <<[op |-> "optimize", sense |-> "none", re |-> FALSE], [op |-> "access"],
            [op |-> "slim", ev |-> "default"], [op |-> "slim", ev |-> "num"], [op |-> "slim", ev |-> "none"],
            [op |-> "optimize", sense |-> IF m.dir = "max" THEN "minimize" ELSE "maximize", re |-> FALSE],
-           [op |-> "access"]>>
+           [op |-> "access"],
+           \* the one-call override inside a `with model:` block: after the block the model's own
+           \* direction decides again (ctx: the driver wraps the call in a context)
+           [op |-> "optimize", sense |-> IF m.dir = "max" THEN "minimize" ELSE "maximize", re |-> FALSE, ctx |-> TRUE],
+           [op |-> "slim", ev |-> "default"], [op |-> "optimize", sense |-> "none", re |-> FALSE]>>
     [] Prop = "C05" ->
          IF ~HasOpt(m) THEN <<Fva(<<>>, "none", 1, 1, FALSE, 0)>>
          ELSE LET o == Opt(m) IN
@@ -173,6 +177,7 @@ DrawStep(r, m) ==
                      [op |-> "optimize", sense |-> "maximize", re |-> FALSE],
                      [op |-> "optimize", sense |-> "minimize", re |-> FALSE],
                      [op |-> "optimize", sense |-> "none", re |-> TRUE],
+                     [op |-> "optimize", sense |-> IF m.dir = "max" THEN "minimize" ELSE "maximize", re |-> FALSE, ctx |-> TRUE],
                      [op |-> "access"], [op |-> "access"],
                      [op |-> "slim", ev |-> "default"], [op |-> "slim", ev |-> "num"],
                      [op |-> "slim", ev |-> "zero"], [op |-> "slim", ev |-> "none"]>>, d[8])
